@@ -216,6 +216,9 @@ def key_columns(ctx, gm: GroupModel, rule: str) -> None:
         data = o.data
         if gm.which == "aggregate":
             ok = False
+            from ..sites2 import strip_seq as _strip_seq
+            if data is not None:
+                data = _strip_seq(it, data)          # (list(<generator>) / tuple(<comprehension>) is the comprehension)
             if data is not None and data[0] == "obj":
                 evs = elements(it, data)
                 if len(evs) == 1 and not it.objs[data[1]].init:
